@@ -223,11 +223,14 @@ class Trajectories:
 
     def shadow(self, sysn, shifts, integ, o, n):
         sim = build(self.rebound, sysn, shifts, integ, o)
+        if self.com:
+            sim.move_to_com()
         advance(sim, integ, self.nsteps)
         return state(sim, n)
 
     def __call__(self, task):
-        sysn, integ, o, order, tp, spec = task
+        sysn, integ, o, order, tp, spec = task[:6]
+        self.com = len(task) > 6 and task[6]        # move the system (and its variations) to the centre-of-mass frame first
         rb.quiet()
         rebound = self.rebound
         sim = build(rebound, sysn, [], integ, o)
@@ -249,6 +252,8 @@ class Trajectories:
             v = sim.add_variation(order=2, first_order=v1, first_order_2=v2, testparticle=(spec[0][0] if tp else -1))
             if spec[0][1] != "cart":
                 v.vary(spec[0][0], spec[0][2], spec[1][2])
+        if self.com:
+            sim.move_to_com()
         advance(sim, integ, self.nsteps)
         sc = math.exp(v.lrescale) if v.lrescale else 1.0
         if tp:
@@ -432,6 +437,17 @@ def run(ctx):
                     tasks.append((sysn, integ, o, 2, False, pr))
                     if sysn == "V4t" and i == npl and pr[0][0] == npl and pr[1][0] == npl:
                         tasks.append((sysn, integ, o, 2, True, pr))
+    # variations carried through move_to_com() (the shift depends on the masses and on the varied coordinates)
+    for sysn in ("V3", "V3h"):
+        for integ, o in integs2:
+            for i in (0, 1, 2):
+                for nm in ("m", "x", "vy"):
+                    tasks.append((sysn, integ, o, 1, False, ((i, "cart", nm),), True))
+                if i > 0:
+                    for nm in ("m", "a", "e", "lambda"):
+                        tasks.append((sysn, integ, o, 1, False, ((i, "pal" if nm == "lambda" else "orb", nm),), True))
+            for pr in (((1, "cart", "m"), (1, "cart", "m")), ((1, "cart", "m"), (1, "cart", "x")), ((1, "orb", "m"), (1, "orb", "a")), ((1, "orb", "a"), (1, "orb", "e")), ((1, "cart", "x"), (2, "cart", "m"))):
+                tasks.append((sysn, integ, o, 2, False, pr, True))
     if quick:
         # the quick tier keeps every first-order case and every second-order case on V3 and the test-particle system; V3h second order is thorough only
         tasks = [t for t in tasks if not (t[3] == 2 and t[0] == "V3h")]
@@ -444,24 +460,24 @@ def run(ctx):
     for nsteps in horizons:
         tres = pool.run_tasks(Trajectories(rebound, nsteps), tasks, timeout=900, chunk=4, progress=lambda d, n: ctx.note("B[%d steps] %d/%d" % (nsteps, d, n)))
         for t, r in zip(tasks, tres):
-            sysn, integ, o, order, tp, spec = t
+            sysn, integ, o, order, tp, spec = t[:6]
             what = "+".join("%d.%s%s" % (s[0], s[2], {"cart": "", "orb": "(orbital)", "pal": "(Pal)"}[s[1]]) for s in spec)
             lab = "%s %s%s order %d%s, parameter %s, %d steps" % (sysn, integ, o, order, " test-particle variation" if tp else "", what, nsteps)
-            fam = "%s:order%d:%s%s" % (integ, order, "+".join(sorted({s[1] for s in spec})), ":testparticle" if tp else "")
+            fam = "%s:order%d:%s%s%s" % (integ, order, "+".join(sorted({s[1] for s in spec})), ":testparticle" if tp else "", ":move_to_com" if len(t) > 6 and t[6] else "")
             case = {"system": sysn, "integrator": [integ, o], "order": order, "testparticle": tp, "spec": [list(s) for s in spec], "steps": nsteps}
             if r[0] != "ok":
                 ctx.violation("trajectory-%s:%s" % (r[0], fam), "%s: %s %s" % (lab, r[0], str(r[1])[-400:]), case)
                 continue
             nB += 1
             bad, w, got = r[1]
-            results[(sysn, integ, order, tp, spec, nsteps)] = got
+            results[(sysn, integ, order, tp, spec, nsteps, len(t) > 6 and t[6])] = got
             wB[fam] = max(wB.get(fam, 0), w if not bad else 0)
             if bad:
                 ctx.violation("trajectory:%s:%s" % (fam, "+".join(s[2] for s in spec)), "%s: %s" % (lab, bad), case)
-        for (sysn, integ, order, tp, spec, ns), got in results.items():
+        for (sysn, integ, order, tp, spec, ns, comf), got in results.items():
             if integ != "bs" or order != 2 or ns != nsteps:
                 continue
-            ref = results.get((sysn, "ias15", order, tp, spec, ns))
+            ref = results.get((sysn, "ias15", order, tp, spec, ns, comf))
             if ref is None:
                 continue
             sp_ = max(abs(v[c]) for v in ref.values() for c in range(3)) + 1e-300
